@@ -189,42 +189,8 @@ func Run(ctx *common.Ctx) {
 		}
 		return new(big.Rat).SetInt(z)
 	}
-	for len(terms) < ncases {
-		op := common.Pick(ctx.Rng, ops)
-		n := op.minA + ctx.Rng.Intn(op.maxA-op.minA+1)
-		var exprs []string
-		base := randRat(op.ints)
-		if ctx.Rng.Chance(25) {
-			base = small()
-		}
-		rel := ctx.Rng.Chance(55)
-		bitw := strings.HasPrefix(op.lisp, "log")
-		if bitw && ctx.Rng.Chance(60) {
-			rel = false
-			base = bitOperand()
-			ctx.Hist("operands:bitwise-mix")
-		} else {
-			bitw = false
-		}
-		if rel {
-			ctx.Hist("operands:related")
-		}
-		for i := 0; i < n; i++ {
-			switch {
-			case i == 0:
-				exprs = append(exprs, show(base))
-			case bitw:
-				exprs = append(exprs, show(bitOperand()))
-			case rel:
-				// derive from the first operand; for divisions the roles are also swapped
-				exprs = append(exprs, show(related(base, op.ints)))
-			default:
-				exprs = append(exprs, show(randRat(op.ints)))
-			}
-		}
-		if rel && n >= 2 && ctx.Rng.Chance(40) {
-			exprs[0], exprs[1] = exprs[1], exprs[0]
-		}
+	runCase := func(op opDef, exprs []string) {
+		n := len(exprs)
 		var sb strings.Builder
 		for i, e := range exprs {
 			fmt.Fprintf(&sb, "(setq %s %s) ", vars[i], e)
@@ -297,8 +263,122 @@ func Run(ctx *common.Ctx) {
 			}
 		}
 	}
+	// the boundary pairs of the property, enumerated exhaustively for every two-operand operator (a reduced
+	// grid in the quick tier), and all small pairs for the divisions (ties, signs, zero divisors)
+	pairGrid := []*big.Int{big.NewInt(0), big.NewInt(1), big.NewInt(-1), big.NewInt(2), big.NewInt(-2), big.NewInt(3),
+		pow2(32), pow2(62), new(big.Int).Neg(pow2(62)), new(big.Int).Sub(pow2(63), big.NewInt(1)), new(big.Int).Neg(pow2(63)),
+		pow2(63), new(big.Int).Sub(new(big.Int).Neg(pow2(63)), big.NewInt(1)), pow2(64)}
+	if ctx.Thorough() {
+		pairGrid = grid
+	}
+	lit := func(z *big.Int) string { return z.String() }
+	for _, op := range ops {
+		if op.minA > 2 || op.maxA < 2 || strings.HasPrefix(op.g, "(OCmp") || strings.HasPrefix(op.lisp, "log") {
+			continue
+		}
+		for _, a := range pairGrid {
+			for _, b := range pairGrid {
+				ctx.Hist("operands:boundary-pair")
+				runCase(op, []string{lit(a), lit(b)})
+			}
+		}
+		switch op.lisp {
+		case "/", "floor", "ceiling", "truncate", "round", "mod", "rem", "gcd", "lcm":
+			for a := int64(-7); a <= 7; a++ {
+				for b := int64(-4); b <= 4; b++ {
+					ctx.Hist("operands:small-pair")
+					runCase(op, []string{fmt.Sprint(a), fmt.Sprint(b)})
+				}
+			}
+		}
+	}
+	ncases += len(terms)
+	for len(terms) < ncases {
+		op := common.Pick(ctx.Rng, ops)
+		n := op.minA + ctx.Rng.Intn(op.maxA-op.minA+1)
+		var exprs []string
+		base := randRat(op.ints)
+		if ctx.Rng.Chance(25) {
+			base = small()
+		}
+		rel := ctx.Rng.Chance(55)
+		bitw := strings.HasPrefix(op.lisp, "log")
+		if bitw && ctx.Rng.Chance(60) {
+			rel = false
+			base = bitOperand()
+			ctx.Hist("operands:bitwise-mix")
+		} else {
+			bitw = false
+		}
+		if rel {
+			ctx.Hist("operands:related")
+		}
+		for i := 0; i < n; i++ {
+			switch {
+			case i == 0:
+				exprs = append(exprs, show(base))
+			case bitw:
+				exprs = append(exprs, show(bitOperand()))
+			case rel:
+				// derive from the first operand; for divisions the roles are also swapped
+				exprs = append(exprs, show(related(base, op.ints)))
+			default:
+				exprs = append(exprs, show(randRat(op.ints)))
+			}
+		}
+		if rel && n >= 2 && ctx.Rng.Chance(40) {
+			exprs[0], exprs[1] = exprs[1], exprs[0]
+		}
+		runCase(op, exprs)
+	}
+	// incf / decf (addNumbers with the delta as second operand): the place holds the exact sum, the delta
+	// variable keeps its value and its identity (a second incf must not double it). Integers only, so the
+	// printed form is the oracle.
+	nplace := 300
+	if ctx.Thorough() {
+		nplace = 3000
+	}
+	for i := 0; i < nplace; i++ {
+		x, d := randInt(), randInt()
+		if i < 2*len(pairGrid) { // every boundary value as delta, the place random and at the extremes
+			d = pairGrid[i/2]
+			if i%2 == 1 {
+				x = common.Pick(ctx.Rng, pairGrid)
+			}
+		}
+		xs, ds := show(new(big.Rat).SetInt(x)), show(new(big.Rat).SetInt(d))
+		prog := fmt.Sprintf("(let ((x %s) (d %s)) (incf x d) (incf x d) (decf x d) (list x d))", xs, ds)
+		want := fmt.Sprintf("(%s %s)", new(big.Int).Add(x, d).String(), d.String())
+		out := common.EvalTimeout(slip.NewScope(), prog, 5*time.Second)
+		got := strings.Join(strings.Fields(common.ShowOutcome(out)), " ") // the printer breaks long lists
+		ctx.Meta.Evaluations++
+		ctx.Hist("op:incf/decf")
+		if got != want {
+			ctx.Violate("incf / decf: the place does not hold the exact sum, or the delta operand was altered", prog, got, want)
+		}
+	}
+	// ash on fixnums (outside the Coq model): floor(x * 2^sh) against math/big, any magnitude of the result
+	for i := 0; i < nplace; i++ {
+		var x *big.Int
+		for x = randInt(); !x.IsInt64(); x = randInt() {
+		}
+		sh := ctx.Rng.Intn(141) - 70
+		want := new(big.Int)
+		if sh >= 0 {
+			want.Lsh(x, uint(sh))
+		} else {
+			want.Rsh(x, uint(-sh)) // rounds towards minus infinity, like ash
+		}
+		prog := fmt.Sprintf("(ash %s %d)", x.String(), sh)
+		got := common.ShowOutcome(common.EvalTimeout(slip.NewScope(), prog, 5*time.Second))
+		ctx.Meta.Evaluations++
+		ctx.Hist("op:ash")
+		if got != want.String() {
+			ctx.Violate("ash of a fixnum is not floor(x * 2^shift)", prog, got, want.String())
+		}
+	}
 	ctx.Meta.DistinctNontrivial = len(distinct)
-	ctx.Meta.Rule = "operator from {+ - * / floor ceiling truncate round mod rem abs 1+ 1- gcd lcm < <= > >= = logand logior logxor lognot} x 1..3 operands (0..4 for logand logior logxor, 60% of them drawn from a mix of small fixnums of both signs, random 64-bit fixnums, the grid, +-2^k+-j for k in 64..133, and the general integers, each position independently, so negative fixnums occur before and after the first bignum) drawn from the boundary grid {0,+-1,+-2,+-3,+-7,+-10,+-2^e,+-(2^e-1),+-(2^e+1) for e in 31,32,62,63,64} (40%), small integers, random 64-bit and random <=200-bit integers, ratios of those (30% for operators that take them), bignum objects holding small values, and in 55% of the cases operands derived from the first one (equal, negated, +-1, small multiples and exact quotients, multiple plus small remainder, exact half-way points, the integers around a ratio, +1/2); distinct = distinct (operator, operand representations) tuples, all non-trivial"
+	ctx.Meta.Rule = "operator from {+ - * / floor ceiling truncate round mod rem abs 1+ 1- gcd lcm < <= > >= = logand logior logxor lognot} x 1..3 operands (0..4 for logand logior logxor, 60% of them drawn from a mix of small fixnums of both signs, random 64-bit fixnums, the grid, +-2^k+-j for k in 64..133, and the general integers, each position independently, so negative fixnums occur before and after the first bignum) plus, for every two-operand operator, ALL pairs of the boundary values {0,+-1,+-2,3,2^32,+-2^62,2^63-1,-2^63,2^63,-2^63-1,2^64} (thorough: of the whole grid) and for / floor ceiling truncate round mod rem gcd lcm ALL pairs from -7..7 x -4..4; plus 300 (thorough 3000) incf/incf/decf sequences on integer places and deltas and as many (ash fixnum shift) calls with shift in -70..70, both checked against math/big directly; operands drawn from the boundary grid {0,+-1,+-2,+-3,+-7,+-10,+-2^e,+-(2^e-1),+-(2^e+1) for e in 31,32,62,63,64} (40%), small integers, random 64-bit and random <=200-bit integers, ratios of those (30% for operators that take them), bignum objects holding small values, and in 55% of the cases operands derived from the first one (equal, negated, +-1, small multiples and exact quotients, multiple plus small remainder, exact half-way points, the integers around a ratio, +1/2); distinct = distinct (operator, operand representations) tuples, all non-trivial"
 	header := "From C05 Require Import Model Spec Corr.\nOpen Scope Z_scope.\n"
 	footer := "Definition res := Eval vm_compute in check_all cases.\nPrint res.\nDefinition gcount := Eval vm_compute in guard_count cases.\nPrint gcount.\nDefinition vcount := Eval vm_compute in value_guard_count cases.\nPrint vcount.\n"
 	ctx.WriteShards("cases", header, "case", footer, terms, descs, 16)
